@@ -582,12 +582,12 @@ func (m *Model) expect(op *Op) (int, effect) {
 			}
 			if op.SetAtime == 2 {
 				o.AtimeC, o.Atime = true, op.Atime
-			} else if op.SetAtime == 1 {
-				o.AtimeC = false
+			} else if op.SetAtime != 0 {
+				o.AtimeC = false // server time (also for values outside the enumeration)
 			}
 			if op.SetMtime == 2 {
 				o.MtimeC, o.Mtime = true, op.Mtime
-			} else if op.SetMtime == 1 {
+			} else if op.SetMtime != 0 {
 				o.MtimeC = false
 			}
 			if r != nil {
